@@ -40,13 +40,13 @@ func fm(tag, native string, w int, extra ...string) core.FamilyMember {
 
 // The numeric sibling families of the repository (members share one implementation template).
 var (
-	famS  = &core.Family{Name: "signed-native", Members: []core.FamilyMember{fm("Int8", "int8", 8), fm("Int16", "int16", 16), fm("Int32", "int32", 32), fm("Int64", "int64", 64)}}
-	famU  = &core.Family{Name: "unsigned-native", Members: []core.FamilyMember{fm("UInt8", "uint8", 8), fm("UInt16", "uint16", 16), fm("UInt32", "uint32", 32), fm("UInt64", "uint64", 64)}}
-	famW  = &core.Family{Name: "word-native", Members: []core.FamilyMember{fm("Word8", "uint8", 8, "Uint8"), fm("Word16", "uint16", 16, "Uint16"), fm("Word32", "uint32", 32, "Uint32"), fm("Word64", "uint64", 64, "Uint64")}}
-	famSB = &core.Family{Name: "signed-big", Members: []core.FamilyMember{fm("Int128", "", 128), fm("Int256", "", 256)}}
-	famUB = &core.Family{Name: "unsigned-big", Members: []core.FamilyMember{fm("UInt128", "", 128), fm("UInt256", "", 256)}}
-	famWB = &core.Family{Name: "word-big", Members: []core.FamilyMember{fm("Word128", "", 128), fm("Word256", "", 256)}}
-	famF  = &core.Family{Name: "fix128", Members: []core.FamilyMember{fm("Fix128", "", 128), fm("UFix128", "", 128)}}
+	famS        = &core.Family{Name: "signed-native", Members: []core.FamilyMember{fm("Int8", "int8", 8), fm("Int16", "int16", 16), fm("Int32", "int32", 32), fm("Int64", "int64", 64)}}
+	famU        = &core.Family{Name: "unsigned-native", Members: []core.FamilyMember{fm("UInt8", "uint8", 8), fm("UInt16", "uint16", 16), fm("UInt32", "uint32", 32), fm("UInt64", "uint64", 64)}}
+	famW        = &core.Family{Name: "word-native", Members: []core.FamilyMember{fm("Word8", "uint8", 8, "Uint8"), fm("Word16", "uint16", 16, "Uint16"), fm("Word32", "uint32", 32, "Uint32"), fm("Word64", "uint64", 64, "Uint64")}}
+	famSB       = &core.Family{Name: "signed-big", Members: []core.FamilyMember{fm("Int128", "", 128), fm("Int256", "", 256)}}
+	famUB       = &core.Family{Name: "unsigned-big", Members: []core.FamilyMember{fm("UInt128", "", 128), fm("UInt256", "", 256)}}
+	famWB       = &core.Family{Name: "word-big", Members: []core.FamilyMember{fm("Word128", "", 128), fm("Word256", "", 256)}}
+	famF        = &core.Family{Name: "fix128", Members: []core.FamilyMember{fm("Fix128", "", 128), fm("UFix128", "", 128)}}
 	famF64      = &core.Family{Name: "fix64", Members: []core.FamilyMember{fm("Fix64", "int64", 64), fm("UFix64", "uint64", 64)}}
 	famEnv      = &core.Family{Name: "environments", Members: []core.FamilyMember{{Tag: "InterpreterEnvironment"}, {Tag: "vmEnvironment"}}}
 	allFamilies = []*core.Family{famS, famU, famW, famSB, famUB, famWB}
